@@ -1881,6 +1881,7 @@ func (fs *MeasurementFieldSet) writeToFile(first writeRequest) {
 			err = e
 		}
 	}()
+	verifPoint("fields.tmp.created", path)
 	isEmpty, err := func() (isEmpty bool, err error) {
 		// ensure temp file closed before rename (for Windows)
 		defer func() {
@@ -1920,6 +1921,7 @@ func (fs *MeasurementFieldSet) writeToFile(first writeRequest) {
 	if err != nil || isEmpty {
 		return
 	}
+	verifPoint("fields.tmp.written", path)
 	err = fs.renameFile(path, err)
 }
 
